@@ -6,6 +6,9 @@ import Driver.BasicBlockOps
 import Driver.BytesMemOps
 import Driver.FormatOps
 import Driver.SparseOps
+import Driver.OverlayOps
+import Driver.StateOps
+import Driver.RenderOps
 /-
 Registry of all operation handlers of the model driver.  One line per component.
 -/
@@ -19,6 +22,9 @@ def allHandlers : List (String × Handler) :=
   basicBlockHandlers ++
   bytesMemHandlers ++
   formatHandlers ++
-  sparseHandlers
+  sparseHandlers ++
+  overlayHandlers ++
+  stateHandlers ++
+  renderHandlers
 
 end Driver
